@@ -291,9 +291,6 @@ end PMF
 
 namespace PMF
 
-
-namespace PMF
-
 theorem cancelInterrupt_len (c : Cfg) : (cancelInterrupt c).actions.length = c.actions.length := by
   unfold cancelInterrupt cancelAction setActionStatus
   split
@@ -354,6 +351,11 @@ theorem pause_pausingOk (c : Cfg) (h : PausingOk c) : PausingOk (pause c).1 := b
             · exact hok
           · exact h.kx (doPauseHooks_kx c)
 
+theorem fail_pausingOk (c : Cfg) (e : Exc) (h : PausingOk c) : PausingOk (fail c e).1 := by
+  unfold fail; split
+  · exact h
+  · exact h.kx (transitionTo_kx ..)
+
 theorem step_pausingOk (P : Prog) (c : Cfg) (ev : Ev) (h : PausingOk c) : PausingOk (step P c ev).1 := by
   cases ev <;> simp only [step]
   · exact h.kx (tickStepper_kx P c)
@@ -362,6 +364,9 @@ theorem step_pausingOk (P : Prog) (c : Cfg) (ev : Ev) (h : PausingOk c) : Pausin
       split
       · exact h1.kx (awaitableDone_kx ..)
       · exact (h1.kx (kill_kx _)).kx (Kx.of_eq rfl rfl)
+      · split
+        · exact fail_pausingOk _ _ h1
+        · exact h1
     · exact h
   · exact pause_pausingOk c h
   · exact h.kx (play_kx c)
@@ -378,14 +383,15 @@ theorem step_pausingOk (P : Prog) (c : Cfg) (ev : Ev) (h : PausingOk c) : Pausin
   · unfold complete; split
     · dsimp only; split <;> exact h.kx (Kx.of_eq rfl rfl)
     · exact h
+  · exact h.kx (Kx.of_eq rfl rfl)
 
 theorem run_pausingOk (P : Prog) (c0 : Cfg) (evs : List Ev) (h : PausingOk c0) : PausingOk (run P c0 evs) := by
   induction evs generalizing c0 with
   | nil => exact h
   | cons e es ih => exact ih _ (step_pausingOk P c0 e h)
 
-theorem pausingOk_init (name : String) : PausingOk (init name) := by
-  intro i hi; unfold init at hi; split at hi <;> simp at hi
+theorem pausingOk_init (nf : Nat) : PausingOk (init nf) := by
+  intro i hi; simp [init] at hi
 
 /-- a `kill()` that hands back an action on a live process with no kill pending yet commits the process -/
 theorem kill_commits (c : Cfg) (k : Nat) (hl : terminal c.st.label = false) (hnk : c.killing = none)
@@ -427,14 +433,14 @@ future `k` (the process was live, in a step, and no kill was pending), then afte
 — pauses, plays, resumes, more kills, `fail`, future cancellation, awaitable completions, any ticks — the process
 is KILLED or EXCEPTED, or the kill is still the pending interrupt action of the step in flight (and then the end
 of that step ends the process: `endOfStep_pending`). -/
-theorem C04_kill_never_lost (P : Prog) (name : String) (evs₁ evs₂ : List Ev) (k : Nat) :
-    let c₁ := run P (init name) evs₁
+theorem C04_kill_never_lost (P : Prog) (nf : Nat) (evs₁ evs₂ : List Ev) (k : Nat) :
+    let c₁ := run P (init nf) evs₁
     terminal c₁.st.label = false → c₁.killing = none → (kill c₁).2 = .action k →
     Committed k (run P (kill c₁).1 evs₂) := by
   intro c₁ hl hnk hr
   have hp0 : Pending k (kill c₁).1 := kill_commits c₁ k hl hnk hr
   have hok0 : PausingOk (kill c₁).1 :=
-    (run_pausingOk P _ evs₁ (pausingOk_init name)).kx (kill_kx c₁)
+    (run_pausingOk P _ evs₁ (pausingOk_init nf)).kx (kill_kx c₁)
   have : ∀ (evs : List Ev) (c : Cfg), Committed k c → PausingOk c → Committed k (run P c evs) := by
     intro evs
     induction evs with
@@ -444,5 +450,3 @@ theorem C04_kill_never_lost (P : Prog) (name : String) (evs₁ evs₂ : List Ev)
 
 end PMF
 
-#print axioms PMF.C04_kill_never_lost
-#print axioms PMF.endOfStep_pending
